@@ -162,7 +162,7 @@ func (c09) Case(c *core.Ctx) {
 	cfg.KeyPrefix = []string{"#", "#", "%"}[r.Intn(3)]
 	textK := cfg.textK()
 	arbitrary := r.Intn(4) == 0
-	keys := []string{"a", "b", "c", "k", "a", "b"}
+	keys := []string{"a", "b", "c", "k", "a", "b", "(0,10]", "r]"}
 	if arbitrary {
 		keys = append(keys, "", ".", "a.b", "[0]", "*", "a[1]", " ", "é")
 	}
